@@ -3465,3 +3465,40 @@ def _(ex, a):
 def _(ex, a):
     # a generic closure parameter `f: F` called inside the crate (e.g. an Iterator::fold override)
     return ex.call_closure(a[0], a[1].f)
+
+
+@prim('bool::then_some')
+def _(ex, a):
+    return Some(a[1]) if as_bool(ex, a[0]) else (ex.drop(a[1]) or NONE())
+
+
+@prim('bool::then')
+def _(ex, a):
+    return Some(ex.call_closure(a[1], [])) if as_bool(ex, a[0]) else NONE()
+
+
+@pattern(r'^<.* as Iterator>::try_for_each$')
+def _(ex, a):
+    # stops at the first Err / None / Break the closure returns, and returns it (takes &mut self)
+    itref = a[0] if isinstance(a[0], Ref) else Ref(Cell(a[0]))
+    c = Cell(ex.deref(itref)) if False else None
+    res = None
+    while True:
+        r = iter_next(ex, itref)
+        if r.variant == 0:
+            break
+        o = ex.call_closure(a[1], [r.f[0]])
+        k = o.kind.split('::')[-1] if isinstance(o, Agg) else ''
+        stop = (k == 'Result' and o.variant == 1) or (k == 'Option' and o.variant == 0) or (k == 'ControlFlow' and o.variant == 1)
+        if stop:
+            res = o
+            break
+    if res is not None:
+        return res
+    return Ok(UNIT())
+
+
+@prim('mem::drop')
+def _(ex, a):
+    ex.drop(a[0])
+    return UNIT()
